@@ -156,12 +156,22 @@ def _spawned_request_closure(F, X):
     """the coroutine closure spawned in the request arm: it sends on Plugin::sender"""
     out = []
     for b in F.code_bodies():
-        if not b.coroutine or not b.cdef.startswith("cln_plugin::PluginDriver::"):
+        if not b.coroutine or "src/cln_plugin/" not in b.span.get("f", ""):
             continue
         sends = [c for c in b.calls if c.name == "tokio::sync::mpsc::Sender::send" and "serde_json::Value" in c.full]
-        if sends:
+        if sends and _spawn_sites(F, X, b):
             out.append((b, sends))
     return out
+
+
+def _spawn_sites(F, X, b):
+    """tokio::spawn calls whose argument is the coroutine closure `b`"""
+    sp = []
+    for (pb, bi, si, ops, st) in F.closure_sites.get(b.def_, []):
+        for c in pb.calls:
+            if c.name == "tokio::spawn" and c.args and any(y[0] == "agg" and y[1] == "closure:" + b.cdef for y in walk(strip(X.operand(pb, c.args[0])))):
+                sp.append((pb, c))
+    return sp
 
 
 def _object_keys(b, X, send):
@@ -214,20 +224,20 @@ def r1(F, X, rep):
             one = len(ks & {"result", "error"}) == 1 and "jsonrpc" in ks
             rep.ob(rid, one, fn, "exactly one of result/error", where=s.loc, how=str(sorted(ks)), detail="" if one else "reply object has keys %s" % sorted(ks))
     # the closure is spawned, not awaited inline, in the request arm
-    sp = [(b, c) for b in F.code_bodies() if b.cdef.startswith("cln_plugin::PluginDriver::dispatch_one") for c in b.calls if c.name == "tokio::spawn"]
-    rep.anchor(rid, "tokio::spawn in dispatch_one", len(sp), 1)
+    sp = [x for b, _sends in cl for x in _spawn_sites(F, X, b)]
+    rep.anchor(rid, "tokio::spawn of the per-request task", len(sp), 1)
 
 
 def r2(F, X, rep):
     rid = "C17-R2"
     rep.rule(rid, "the reader future raced in the driver loop awaits only FramedRead::next and does nothing before it; handlers run in spawned tasks")
-    runs = [b for b in F.code_bodies() if b.coroutine and b.cdef.startswith("cln_plugin::PluginDriver::") and ml.selects(b, X)]
+    runs = [b for b in F.code_bodies() if b.coroutine and "src/cln_plugin/" in b.span.get("f", "") and ml.selects(b, X)]
     if not rep.anchor(rid, "driver loop with select!", len(runs), 1):
         return
     b = runs[0]
     sel = ml.selects(b, X)[0]
     ops = [f for f in sel.futures if f is not None]
-    rd = [f for f in ops if (f.resolved or f.name).startswith("cln_plugin::PluginDriver::")]
+    rd = [f for f in ops if (f.resolved or f.name) in F.fns and "src/cln_plugin/" in F.by_cdef[f.resolved or f.name].span.get("f", "")]
     wr = [f for f in ops if f.name == "tokio::sync::mpsc::Receiver::recv"]
     ok = len(rd) == 1 and len(wr) == 1 and len(sel.futures) == 2
     rep.ob(rid, ok, F.root_of(b), "select races {read one message, receive one outgoing value}", where=loc(b.term(sel.switch_bb)["sp"]), how=str([f.name if f else None for f in sel.futures]),
@@ -282,8 +292,10 @@ def w(F, X, rep):
             israced = any(f is not None and f.bb == c.bb for f in s.futures or [])
             rep.ob(rid, not israced, fn, "send is not a select operand", where=c.loc, how="inside an arm body", detail="" if not israced else "the frame write is raced in a select")
     fw = [(b, c) for b in F.code_bodies() for c in b.calls if c.name == "tokio_util::codec::FramedWrite::new"]
-    rep.ob(rid, len(fw) == 1, "crate", "a single FramedWrite is constructed", where=fw[1][1].loc if len(fw) > 1 else (fw[0][1].loc if fw else ""), how="%d" % len(fw),
-           detail="" if len(fw) == 1 else "%d FramedWrite instances: frames from different writers can interleave on stdout" % len(fw))
+    # (a helper spliced into several callers shows the same source construction once per caller: count source sites)
+    fwl = sorted({c.loc for _b, c in fw})
+    rep.ob(rid, len(fwl) == 1, "crate", "a single FramedWrite is constructed", where=fwl[1] if len(fwl) > 1 else (fwl[0] if fwl else ""), how="%d" % len(fwl),
+           detail="" if len(fwl) == 1 else "%d FramedWrite instances: frames from different writers can interleave on stdout" % len(fwl))
     esc = [(b, c) for b in F.code_bodies() for c in b.calls if c.name in ("tokio_util::codec::FramedWrite::get_mut", "tokio_util::codec::FramedWrite::into_inner", "tokio_util::codec::FramedWrite::get_ref", "tokio_util::codec::FramedWrite::write_buffer_mut")]
     rep.ob(rid, not esc, "crate", "the raw writer never escapes", where=esc[0][1].loc if esc else "", how="no get_mut/into_inner", detail="" if not esc else "raw stdout obtained via %s" % esc[0][1].name)
     raw = [(b, c) for b in F.code_bodies() for c in b.calls if c.name in ("std::io::_print", "std::io::stdout", "std::io::_eprint") or (c.name == "tokio::io::stdout" and F.root_of(b) != "plugin::init")]
